@@ -48,6 +48,8 @@ def seeded_rows():
     rows = []
     for d in sorted(glob.glob(os.path.join(common.VERIF, "seeded", "*"))):
         name = os.path.basename(d)
+        if not os.path.isdir(d):
+            continue
         meta = {}
         try:
             meta = json.load(open(os.path.join(d, "meta.json")))
@@ -61,6 +63,17 @@ def seeded_rows():
         first = {}
         for pid, v in verdicts:
             first.setdefault(pid, v)
+        # the regression files are later runs of the current checks over every kept change: they supersede results.txt
+        for rf in ("REGRESSION.txt", "REGRESSION-corpus-only.txt"):
+            try:
+                for line in open(os.path.join(common.VERIF, "seeded", rf)):
+                    parts = line.split()
+                    if len(parts) >= 2 and parts[0] == name:
+                        for pid, v in re.findall(r"(C\d+) (OK|FAIL)", line):
+                            if v == "FAIL" or rf == "REGRESSION.txt":
+                                final[pid] = v
+            except OSError:
+                pass
         caught = [p for p, v in final.items() if v == "FAIL"]
         missed_first = [p for p, v in first.items() if v == "OK" and final.get(p) == "FAIL"]
         nf = "no-failing-input-found" in res.split("--- after")[-1]
